@@ -10,13 +10,18 @@ from . import c07
 ASSUMPTIONS = [
     "cut points are quiescent points with an empty scheduler queue (a restart with tasks still queued loses them by construction of the queue; the property quantifies over quiescent points)",
     "eviction = dropping the process from the cache (verif hook); restart = a new engine on the same SQLite file",
-    "messages are compared up to ids and timestamps; lifecycle-hook acts, timeouts, generated acts and sub-processes are not generated here",
+    "messages are compared up to ids and timestamps; lifecycle-hook acts and sub-processes are not generated here",
 ]
 
 
 def gen_base(seed, i):
     rng = Rng(seed * 15485867 + i)
     kind = rng.below(3)
+    if i % 12 == 2:
+        # timeout rules: the clock keeps running for a process that waits in the store only
+        from . import c19
+        sc, _ = c19.gen_scenario(seed, 4 * i)      # (4*i is never in c19's own evict/restart family)
+        return sc["models"][0], {}, sc["ops"], rng
     if i % 6 == 5:
         # a catch takes an error, the process is reloaded while the handler waits, the handler fails (or ends): the once-only marks of catches
         # and everything else a revived task carries have to come back from the store
@@ -136,8 +141,8 @@ def run(ctx):
         cuts = set(rng.shuffle(quiescent)[:ncut])
         if len(ops) > 40:
             cuts.add(quiescent[len(quiescent) - 1 - rng.below(5)])
-        if i % 6 == 5:
-            cuts = set(quiescent)      # the catch family is reloaded at every quiescent point
+        if i % 6 == 5 or i % 12 == 2:
+            cuts = set(quiescent)      # the catch family and the timeout family are reloaded at every quiescent point
         cfg = {"keep": True, "store": store, "dump_each": True}
         a = {"id": f"c12-{i}-A", "config": cfg, "models": [w], "ops": ops, "exprs": exprs}
         bops, idx = with_cuts(ops, cuts, store)
